@@ -41,7 +41,8 @@ CHECKS = {
  "C05": ("TLA+ model of N callers sharing one client lock (FIFO hand-over, per-caller reply scripts, cancellation at any "
          "await point) model-checked by TLC; exchange-atomicity monitor (UdsClientMutexContract) used by TLC to validate "
          "the transport log of real concurrent ECU/UDSClient users, enumerated over arrival orders, delays, reply scripts "
-         "and cancellation points",
+         "and cancellation points; the lock core (UdsClientLockInd, refined by the TLC model) carries an inductive "
+         "invariant discharged by Apalache for 6 callers and behaviours of any length (DESIGN 9.10)",
          "Exhaustive model checking for 2-3 (thorough: 4) callers x all reply scripts x one cancellation anywhere; TLC trace "
          "validation of every real schedule of 2-3 tasks (incl. the real tester-present worker and reconnect) up to the "
          "enumeration depth, 4-5 tasks sampled. Exhaustive over the enumerated schedules only.",
